@@ -202,14 +202,20 @@ def scalar_shape(idx, rep, rule):
             # where is it placed?
             prod = [p for p in df.calls(fi.node) if (idx.resolve_expr(fi.module, p.func, fi) or None) is not None and getattr(idx.resolve_expr(fi.module, p.func, fi).val, "name", "") == "Product"]
             side = None
+            asg = df.assignments(fi.node)
+            sname = next((n for n, vs in asg.items() if any(v is c for v, pth, st in vs)), None)
             for p in prod:
-                txt = ast.unparse(p).replace(" ", "")
-                asg = df.assignments(fi.node)
-                sname = next((n for n, vs in asg.items() if any(v is c for v, pth, st in vs)), None)
-                if sname and f"[{sname},{a}]" in txt or sname and f"({sname},{a})" in txt:
-                    side = "left"
-                elif sname and (f"[{a},{sname}]" in txt or f"({a},{sname})" in txt):
-                    side = "right"
+                # the factors of the product in order (Product(S, A), Product(*[S, A]), Product(*(S, A)))
+                elts = []
+                for x in p.args:
+                    if isinstance(x, ast.Starred) and isinstance(x.value, (ast.List, ast.Tuple)):
+                        elts += list(x.value.elts)
+                    else:
+                        elts.append(x)
+                pos_s = next((i for i, x in enumerate(elts) if x is c or (sname is not None and isinstance(x, ast.Name) and x.id == sname)), None)
+                pos_a = next((i for i, x in enumerate(elts) if isinstance(x, ast.Name) and x.id == a), None)
+                if pos_s is not None and pos_a is not None:
+                    side = "left" if pos_s < pos_a else "right"
             rows = {f"({a}.shape[-2],{a}.shape[-2])", f"({a}.shape[0],{a}.shape[0])"}
             cols = {f"({a}.shape[-1],{a}.shape[-1])", f"({a}.shape[1],{a}.shape[1])"}
             ok = None
